@@ -15,15 +15,15 @@ fn kd(a: &Arg) -> Option<Option<bool>> {
 
 fn red<N: FromLabel + NumericOps>(pool: bool, op: &str, a: &Array<N>, axis: Option<isize>, keep: Option<bool>) -> Option<String> {
     Some(match op {
-        "sum" => res_arr(&a.sum(axis)), "nansum" => res_arr(&a.nansum(axis)),
-        "prod" => res_arr(&a.prod(axis)), "nanprod" => res_arr(&a.nanprod(axis)),
-        "cumsum" => res_arr(&a.cumsum(axis)), "nancumsum" => res_arr(&a.nancumsum(axis)),
-        "cumprod" => res_arr(&a.cumprod(axis)), "nancumprod" => res_arr(&a.nancumprod(axis)),
-        "max" => res_arr(&a.max(axis)), "amax" => res_arr(&a.amax(axis)), "nanmax" => res_arr(&a.nanmax(axis)),
-        "min" => res_arr(&a.min(axis)), "amin" => res_arr(&a.amin(axis)), "nanmin" => res_arr(&a.nanmin(axis)),
-        "count_nonzero" => res_arr(&a.count_nonzero(axis, keep)),
-        "argmax" => res_arr(&a.argmax(axis, keep)),
-        "argmin" => res_arr(&a.argmin(axis, keep)),
+        "sum" => w2(res_arr(&a.sum(axis)), res_arr(&okr(&a).sum(axis))), "nansum" => w2(res_arr(&a.nansum(axis)), res_arr(&okr(&a).nansum(axis))),
+        "prod" => w2(res_arr(&a.prod(axis)), res_arr(&okr(&a).prod(axis))), "nanprod" => w2(res_arr(&a.nanprod(axis)), res_arr(&okr(&a).nanprod(axis))),
+        "cumsum" => w2(res_arr(&a.cumsum(axis)), res_arr(&okr(&a).cumsum(axis))), "nancumsum" => w2(res_arr(&a.nancumsum(axis)), res_arr(&okr(&a).nancumsum(axis))),
+        "cumprod" => w2(res_arr(&a.cumprod(axis)), res_arr(&okr(&a).cumprod(axis))), "nancumprod" => w2(res_arr(&a.nancumprod(axis)), res_arr(&okr(&a).nancumprod(axis))),
+        "max" => w2(res_arr(&a.max(axis)), res_arr(&okr(&a).max(axis))), "amax" => w2(res_arr(&a.amax(axis)), res_arr(&okr(&a).amax(axis))), "nanmax" => w2(res_arr(&a.nanmax(axis)), res_arr(&okr(&a).nanmax(axis))),
+        "min" => w2(res_arr(&a.min(axis)), res_arr(&okr(&a).min(axis))), "amin" => w2(res_arr(&a.amin(axis)), res_arr(&okr(&a).amin(axis))), "nanmin" => w2(res_arr(&a.nanmin(axis)), res_arr(&okr(&a).nanmin(axis))),
+        "count_nonzero" => w2(res_arr(&a.count_nonzero(axis, keep)), res_arr(&okr(&a).count_nonzero(axis, keep))),
+        "argmax" => w2(res_arr(&a.argmax(axis, keep)), res_arr(&okr(&a).argmax(axis, keep))),
+        "argmin" => w2(res_arr(&a.argmin(axis, keep)), res_arr(&okr(&a).argmin(axis, keep))),
         _ => return None,
     })
 }
@@ -69,34 +69,34 @@ fn go_split<T: Lab>(op: &str, args: &[Arg]) -> Option<String> {
     let (sh, es) = match args.first() { Some(Arg::A(sh, es)) => (sh, es), _ => return None };
     let a = mk::<T>(sh, es)?;
     Some(match (op, &args[1..]) {
-        ("sort", [ax, Arg::N]) => res_arr(&a.sort(opt_isize(ax)?, None::<SortKind>)),
-        ("sort", [ax, Arg::Z(k)]) => res_arr(&a.sort(opt_isize(ax)?, Some(sort_kind(*k)))),
-        ("sort", [ax, Arg::S(k)]) => res_arr(&a.sort(opt_isize(ax)?, Some(std::str::from_utf8(k).ok()?))),
-        ("argsort", [ax, Arg::N]) => res_arr(&a.argsort(opt_isize(ax)?, None::<SortKind>)),
-        ("argsort", [ax, Arg::Z(k)]) => res_arr(&a.argsort(opt_isize(ax)?, Some(sort_kind(*k)))),
-        ("argsort", [ax, Arg::S(k)]) => res_arr(&a.argsort(opt_isize(ax)?, Some(String::from_utf8(k.clone()).ok()?))),
-        ("unique", [ax]) => res_arr(&a.unique(opt_isize(ax)?)),
-        ("delete", [Arg::L(idx), ax]) => res_arr(&a.delete(&usizes(idx), opt_usize(ax)?)),
-        ("insert", [Arg::L(idx), Arg::A(s2, e2), ax]) => res_arr(&a.insert(&usizes(idx), &mk::<T>(s2, e2)?, opt_usize(ax)?)),
+        ("sort", [ax, Arg::N]) => w2(res_arr(&a.sort(opt_isize(ax)?, None::<SortKind>)), res_arr(&okr(&a).sort(opt_isize(ax)?, None::<SortKind>))),
+        ("sort", [ax, Arg::Z(k)]) => w2(res_arr(&a.sort(opt_isize(ax)?, Some(sort_kind(*k)))), res_arr(&okr(&a).sort(opt_isize(ax)?, Some(sort_kind(*k))))),
+        ("sort", [ax, Arg::S(k)]) => w2(res_arr(&a.sort(opt_isize(ax)?, Some(std::str::from_utf8(k).ok()?))), res_arr(&okr(&a).sort(opt_isize(ax)?, Some(std::str::from_utf8(k).ok()?)))),
+        ("argsort", [ax, Arg::N]) => w2(res_arr(&a.argsort(opt_isize(ax)?, None::<SortKind>)), res_arr(&okr(&a).argsort(opt_isize(ax)?, None::<SortKind>))),
+        ("argsort", [ax, Arg::Z(k)]) => w2(res_arr(&a.argsort(opt_isize(ax)?, Some(sort_kind(*k)))), res_arr(&okr(&a).argsort(opt_isize(ax)?, Some(sort_kind(*k))))),
+        ("argsort", [ax, Arg::S(k)]) => w2(res_arr(&a.argsort(opt_isize(ax)?, Some(String::from_utf8(k.clone()).ok()?))), res_arr(&okr(&a).argsort(opt_isize(ax)?, Some(String::from_utf8(k.clone()).ok()?)))),
+        ("unique", [ax]) => w2(res_arr(&a.unique(opt_isize(ax)?)), res_arr(&okr(&a).unique(opt_isize(ax)?))),
+        ("delete", [Arg::L(idx), ax]) => w2(res_arr(&a.delete(&usizes(idx), opt_usize(ax)?)), res_arr(&okr(&a).delete(&usizes(idx), opt_usize(ax)?))),
+        ("insert", [Arg::L(idx), Arg::A(s2, e2), ax]) => w2(res_arr(&a.insert(&usizes(idx), &mk::<T>(s2, e2)?, opt_usize(ax)?)), res_arr(&okr(&a).insert(&usizes(idx), &mk::<T>(s2, e2)?, opt_usize(ax)?))),
         ("insert_entry", [Arg::L(idx), Arg::A(s2, e2), ax]) => match a.insert(&usizes(idx), &mk::<T>(s2, e2)?, opt_usize(ax)?) {
             Err(e @ (ArrayError::AxisOutOfBounds | ArrayError::OutOfBounds { .. })) => err_str(&e),
             _ => "z(1)".to_string(),
         },
-        ("trim_zeros", []) => res_arr(&a.trim_zeros()),
-        ("repeat", [Arg::L(reps), ax]) => res_arr(&a.repeat(&usizes(reps), opt_usize(ax)?)),
-        ("flip", [Arg::N]) => res_arr(&a.flip(None)),
-        ("flip", [Arg::L(ax)]) => res_arr(&a.flip(Some(isizes(ax)))),
-        ("flipud", []) => res_arr(&a.flipud()),
-        ("fliplr", []) => res_arr(&a.fliplr()),
-        ("roll", [Arg::L(sh), Arg::N]) => res_arr(&a.roll(isizes(sh), None)),
-        ("roll", [Arg::L(sh), Arg::L(ax)]) => res_arr(&a.roll(isizes(sh), Some(isizes(ax)))),
-        ("rot90", [Arg::Z(k), Arg::L(ax)]) => res_arr(&a.rot90(*k as usize, isizes(ax))),
-        ("array_split", [Arg::Z(p), ax]) => res_arrs(&a.array_split(*p as usize, opt_usize(ax)?)),
+        ("trim_zeros", []) => w2(res_arr(&a.trim_zeros()), res_arr(&okr(&a).trim_zeros())),
+        ("repeat", [Arg::L(reps), ax]) => w2(res_arr(&a.repeat(&usizes(reps), opt_usize(ax)?)), res_arr(&okr(&a).repeat(&usizes(reps), opt_usize(ax)?))),
+        ("flip", [Arg::N]) => w2(res_arr(&a.flip(None)), res_arr(&okr(&a).flip(None))),
+        ("flip", [Arg::L(ax)]) => w2(res_arr(&a.flip(Some(isizes(ax)))), res_arr(&okr(&a).flip(Some(isizes(ax))))),
+        ("flipud", []) => w2(res_arr(&a.flipud()), res_arr(&okr(&a).flipud())),
+        ("fliplr", []) => w2(res_arr(&a.fliplr()), res_arr(&okr(&a).fliplr())),
+        ("roll", [Arg::L(sh), Arg::N]) => w2(res_arr(&a.roll(isizes(sh), None)), res_arr(&okr(&a).roll(isizes(sh), None))),
+        ("roll", [Arg::L(sh), Arg::L(ax)]) => w2(res_arr(&a.roll(isizes(sh), Some(isizes(ax)))), res_arr(&okr(&a).roll(isizes(sh), Some(isizes(ax))))),
+        ("rot90", [Arg::Z(k), Arg::L(ax)]) => w2(res_arr(&a.rot90(*k as usize, isizes(ax))), res_arr(&okr(&a).rot90(*k as usize, isizes(ax)))),
+        ("array_split", [Arg::Z(p), ax]) => w2(res_arrs(&a.array_split(*p as usize, opt_usize(ax)?)), res_arrs(&okr(&a).array_split(*p as usize, opt_usize(ax)?))),
         ("split", [Arg::Z(p), ax]) => res_arrs(&ArraySplit::split(&a, *p as usize, opt_usize(ax)?)),
-        ("split_axis", [Arg::Z(ax)]) => res_arrs(&a.split_axis(*ax as usize)),
-        ("hsplit", [Arg::Z(p)]) => res_arrs(&a.hsplit(*p as usize)),
-        ("vsplit", [Arg::Z(p)]) => res_arrs(&a.vsplit(*p as usize)),
-        ("dsplit", [Arg::Z(p)]) => res_arrs(&a.dsplit(*p as usize)),
+        ("split_axis", [Arg::Z(ax)]) => w2(res_arrs(&a.split_axis(*ax as usize)), res_arrs(&okr(&a).split_axis(*ax as usize))),
+        ("hsplit", [Arg::Z(p)]) => w2(res_arrs(&a.hsplit(*p as usize)), res_arrs(&okr(&a).hsplit(*p as usize))),
+        ("vsplit", [Arg::Z(p)]) => w2(res_arrs(&a.vsplit(*p as usize)), res_arrs(&okr(&a).vsplit(*p as usize))),
+        ("dsplit", [Arg::Z(p)]) => w2(res_arrs(&a.dsplit(*p as usize)), res_arrs(&okr(&a).dsplit(*p as usize))),
         _ => return None,
     })
 }
